@@ -14,7 +14,7 @@
    A join that certainly came before the interval timer was due (hi < deadline) certainly stopped it and re-armed
    it for the full interval counted from lo at the earliest; a join whose stamps do not decide that keeps the
    earlier of the two possibilities.  For exact schedules this is precisely Stop-then-Reset: re-armed iff the
-   join is strictly before the deadline.  Times and durations are integers (ns), durations may be <= 0 as in Go. *)
+   join is strictly before the deadline.  Times and durations are integers (us), durations may be <= 0 as in Go. *)
 From Coq Require Import List Arith Bool ZArith.
 From Thunder Require Import Limiter.Model Batch.Model.   (* upd from Limiter.Model; Batch.Model shadows the rest *)
 Import ListNotations.
@@ -23,8 +23,9 @@ Local Open Scope Z_scope.
 (* f.WaitInterval, f.MaxDuration per Func, as configured (not yet defaulted) *)
 Definition tconfig := list (Z * Z).
 
-Definition default_wait : Z := 1000000.      (* DefaultWaitInterval = 1 ms *)
-Definition default_maxdur : Z := 20000000.   (* DefaultMaxDuration = 20 ms *)
+(* the unit of time is 1 us (what the harness configures and stamps in; any unit would do for the theorems) *)
+Definition default_wait : Z := 1000.      (* DefaultWaitInterval = 1 ms *)
+Definition default_maxdur : Z := 20000.   (* DefaultMaxDuration = 20 ms *)
 
 Definition eff_wait (cfg : tconfig) (f : nat) : Z :=
   let w := fst (nth f cfg (0, 0)) in if 0 <? w then w else default_wait.
